@@ -106,7 +106,52 @@ static void* fib(void* p) {
   g_done();
   return NULL;
 }
+/* ---- a polling loop on one kernel thread, the fiber it waits for ready on another thread whose current fiber
+ * is busy and does not yield: the poller's thread has to come and take it (it balances its load on every
+ * 1024th yield), however often the poller finds nothing to switch to ---- */
+static volatile int bz_flag, bz_b_ran;
+static volatile long bz_yields;
+static void* bz_setter(void* p) {
+  (void)p;
+  bz_b_ran = 1;
+  bz_flag = 1;
+  sim_progress();
+  return NULL;
+}
+static void* bz_poller(void* p) {
+  (void)p;
+  while (!bz_flag) {
+    bz_yields++;
+    fiber_yield();
+  }
+  sim_progress();
+  return NULL;
+}
+static void run_busy_thread(void) {
+  sim_cfg_t c = sim_config(2, 3, 0, FBIT(F_STALL));
+  const int pre = wl_int(0, 40);
+  sim_scenario("busy-thread-ready-fiber");
+  sim_describe("threads=%d the main fiber computes without yielding while the setter is queued behind it; a poller yields elsewhere (pre-yields %d) preempt=1/%d cost=%dns", c.threads, pre,
+               c.preempt_inv, c.cost_ns);
+  sim_nontrivial();
+  sim_fiber_mode();
+  fiber_manager_init(c.threads);
+  fiber_t* a = fiber_create(STK, bz_poller, NULL);
+  for (int k = 0; k < pre; k++) fiber_yield(); /* the poller gets going (here or, stolen, on another thread) */
+  fiber_t* b = fiber_create(STK, bz_setter, NULL);
+  const long y0 = bz_yields;
+  while (!bz_b_ran && bz_yields - y0 < 6000) sim_compute(200000); /* busy: 0.2 ms at a time, never yielding */
+  if (!bz_b_ran && bz_yields - y0 >= 6000)
+    sim_violation("C10-ready-fiber-never-fetched", "the setter has been ready for %ld yields of the polling fiber and no kernel thread has run it", bz_yields - y0);
+  fiber_join(a, NULL);
+  fiber_join(b, NULL);
+  h_fiber_end();
+}
 void h_run(void) {
+  if (wl_pct(6)) {
+    run_busy_thread();
+    return;
+  }
   if (wl_pct(15)) { /* polling loops next to a mutex hand-off that the thread's maintenance fiber has to complete */
     h_deferred_unlock_scenario("C10-polling-loop-starved");
     return;
